@@ -410,7 +410,10 @@ def repro_results():
         for seed in SEEDS:
             for in_order in (True, False):
                 res = f(M, num_anneals=3, anneal_duration=5, in_order=in_order, seed=seed)
-                out.append([nm, seed, in_order, [[sorted(r.state.items(), key=repr), r.value] for r in res]])
+                again = f(M, num_anneals=3, anneal_duration=5, in_order=in_order, seed=seed)
+                ser = [[sorted(r.state.items(), key=repr), r.value] for r in res]
+                ser2 = [[sorted(r.state.items(), key=repr), r.value] for r in again]
+                out.append([nm, seed, in_order, ser, ser == ser2])
     return out
 
 
@@ -426,8 +429,12 @@ def check_repro(case, st):
             outs.append(json.loads(line[0][6:]))
         st.traces += 2 * len(outs[0])
         st.transitions += len(outs[0])
+        for a in outs[0]:
+            if not a[4]:
+                st.violation("reproducibility|same-process-stock-build", dict(case, model=a[0], seed=a[1], in_order=a[2]),
+                             "C12 %s seed=%r in_order=%s: two identical calls in one process on the stock build returned different results" % (a[0], a[1], a[2]))
         for a, b in zip(outs[0], outs[1]):
-            if a != b:
+            if a[:4] != b[:4]:
                 st.violation("reproducibility|fresh-process", dict(case, model=a[0], seed=a[1], in_order=a[2]),
                              "C12 %s seed=%r in_order=%s: two fresh processes returned different results %r vs %r" % (a[0], a[1], a[2], a[3], b[3]))
         st.nontrivial += 1
